@@ -1,0 +1,73 @@
+//go:build verif
+
+// Copyright Istio Authors
+//
+// Licensed under the Apache License, Version 2.0 (the "License");
+// you may not use this file except in compliance with the License.
+// You may obtain a copy of the License at
+//
+//     http://www.apache.org/licenses/LICENSE-2.0
+//
+// Unless required by applicable law or agreed to in writing, software
+// distributed under the License is distributed on an "AS IS" BASIS,
+// WITHOUT WARRANTIES OR CONDITIONS OF ANY KIND, either express or implied.
+// See the License for the specific language governing permissions and
+// limitations under the License.
+
+package cache
+
+import (
+	"time"
+
+	"istio.io/istio/pkg/security"
+	"istio.io/istio/pkg/verif"
+)
+
+// ---------------------------------------------------------------------------------------------
+// C18: when the renewal of an issued certificate is scheduled
+// ---------------------------------------------------------------------------------------------
+
+// from the statement: "Each issued certificate schedules exactly one renewal, no later than its expiry
+// and strictly before it whenever the configured grace ratio exceeds the jitter".
+// rotateTime returns the delay after which the renewal fires, counted from some instant at or after the
+// call (the clock never runs backwards): "called" is an instant at or before every clock reading inside.
+//
+//verif:contract var:rotateTime
+//verif:prop C18
+func ctRotateTime(secret security.SecretItem, graceRatio float64, graceRatioJitter float64) {
+	verif.Requires("certificate-has-a-lifetime", !secret.ExpireTime.Before(secret.CreatedTime))
+	verif.Requires("jitter-not-negative", graceRatioJitter >= 0)
+	called := time.Now()
+	delay := rotateTime(secret, graceRatio, graceRatioJitter)
+	left := secret.ExpireTime.Sub(called) // time to expiry, seen from the call
+	verif.Ensures("never-negative", delay >= 0)
+	verif.Ensures("no-later-than-expiry", delay == 0 || delay <= left)
+	// a grace ratio above the jitter keeps at least a billionth of a lifetime of at least a second: one
+	// nanosecond, the resolution of the clock
+	verif.Ensures("strictly-before-expiry-when-grace-exceeds-jitter",
+		!(graceRatio-graceRatioJitter >= 1e-9 && secret.ExpireTime.Sub(secret.CreatedTime) >= time.Second) ||
+			delay == 0 || delay < left)
+}
+
+// registerSecret schedules the renewal: at most one per cached certificate (a certificate that is
+// already registered is not scheduled again), with the delay rotateTime computed for this certificate,
+// and only after the certificate has been put in the cache (so that the renewal task finds it).
+//
+//verif:call-assert (*SecretManagerClient).registerSecret PushDelayed 0
+func caRenewalScheduledForTheCachedCertificate(arg1 time.Duration, sc *SecretManagerClient, delay time.Duration, item security.SecretItem) bool {
+	w := sc.cache.workload
+	return arg1 == delay && delay >= 0 && w != nil && w.CreatedTime.Equal(item.CreatedTime) && w.ExpireTime.Equal(item.ExpireTime)
+}
+
+//verif:contract (*SecretManagerClient).registerSecret
+//verif:prop C18
+func ctRegisterSecret(sc *SecretManagerClient, item security.SecretItem) {
+	verif.Requires("client-configured", sc != nil && sc.configOptions != nil && sc.queue != nil)
+	verif.Requires("certificate-has-a-lifetime", !item.ExpireTime.Before(item.CreatedTime))
+	verif.Requires("jitter-not-negative", sc.configOptions.SecretRotationGracePeriodRatioJitter >= 0)
+	had := sc.cache.workload
+	sc.registerSecret(item)
+	// an already registered certificate stays (and, by the call-site assertion above, nothing is scheduled
+	// for it a second time); what the cache holds after scheduling is the queue's business
+	verif.Ensures("registered-certificate-not-replaced", had == nil || sc.cache.workload == had)
+}
